@@ -18,6 +18,15 @@ def with_cr(text):
     return text.replace(CR, '&#13;')
 
 
+def with_refs(rng, text):
+    """the same document with its non-ASCII characters written as numeric character references (half of the time): what
+    reaches the tree that way never passed through any filter applied to the input text"""
+    import re
+    if rng.random() < 0.5:
+        return text
+    return re.sub('[^\x00-\x7f]', lambda m: ('&#x%X;' if rng.random() < 0.5 else '&#%d;') % ord(m.group()), text)
+
+
 def histories(tier, rng):
     # completion records: every kind of roDelete (this running order, another one, blank roID, no roID tag), then a second
     # roDelete and another message, which must both be refused - at most one completion record, whatever the first said
@@ -31,7 +40,9 @@ def histories(tier, rng):
     n = 60 if tier == 'quick' else 600
     for h in range(n):
         sids = gens.STORY_IDS[:rng.randrange(1, 4)]
-        ro = gens.vary_envelope(rng, to_text(gens.make_ro(sids, layout=rng.choice(gens.RO_LAYOUTS), timing=rng.choice(gens.TIMINGS))))
+        ro_doc = gens.make_ro(sids, layout=rng.choice(gens.RO_LAYOUTS), timing=rng.choice(gens.TIMINGS))
+        ro_doc.find('roCreate').find('roSlug') is not None and setattr(ro_doc.find('roCreate').find('roSlug'), 'text', rng.choice(SPECIAL) or 'Slug')
+        ro = with_refs(rng, gens.vary_envelope(rng, to_text(ro_doc)))
         state = ro
         msgs = []
         c = [0]
@@ -65,7 +76,7 @@ def histories(tier, rng):
                     d[3].remove(d[3].find('roID'))
             else:
                 d = gens.make_ro(['X'], message_id=20 + j)
-            t = gens.vary_envelope(rng, with_cr(to_text(d)))
+            t = with_refs(rng, gens.vary_envelope(rng, with_cr(to_text(d))))
             if rng.random() < 0.1:
                 t = gens.mutate_doc(rng, t, state, n=1)
             msgs.append(t)
